@@ -302,3 +302,22 @@ fn stereo_modes() {
         i += 1;
     }
 }
+
+/// Resampler phase: `x` (the fractional position between two generator ticks) must stay in [0, 1)
+/// for every supported sample rate (8-384 kHz): the interpolation polynomial is evaluated at x, so
+/// a phase that escapes the unit interval makes the output grow without bound.
+/// One `process()` call from the freshly constructed chip (a later call starts from the same
+/// invariant `0 <= x < 1`, which is what the second assertion re-establishes).
+#[kani::proof]
+#[kani::unwind(10)]
+fn resampler_phase_bounded() {
+    let sr: usize = kani::any();
+    kani::assume(sr >= 8000 && sr <= 384000);
+    let mut ay = AymPrecise::new(false, 1773400.0, sr);
+    let x0: f64 = kani::any();
+    kani::assume(x0 >= 0.0 && x0 < 1.0);
+    ay.x = x0;
+    ay.process();
+    kani::assert(ay.x >= 0.0 && ay.x < 1.0, "C18: resampler phase stays inside [0,1) at every supported sample rate");
+    kani::assert(ay.left.is_finite() && ay.right.is_finite(), "C18: one output sample is finite");
+}
